@@ -5,7 +5,7 @@ from coregen import gen_case, nontrivial as _nt, c_case, shrink_candidates
 ID = 'C04'
 GEN_MODULES = ['Ident', 'Classes']
 MODEL_TARGETS = ['coq/C04/Run.vo']
-PROOF_TARGETS = ['coq/C04/Proofs.vo']
+PROOF_TARGETS = ['coq/C04/Proofs.vo', 'coq/Core/EnvIndep.vo']
 PROPS_FILE = 'coq/Props/C04.v'
 RUN_MODULE = 'QCE.C04.Run'
 COQ_HEADER = 'From Gen Require Import Ident Classes.\nFrom QCE Require Import Core.Model Core.Run.'
